@@ -1,5 +1,4 @@
-import WindVerif.Proofs.Records
-import WindVerif.Proofs.LineFile
+import WindVerif.Proofs.RecordFile
 /-!
 # C13 — Records survive save/load and record files are sequences of records
 
@@ -43,6 +42,13 @@ theorem buffer_reset (rows : List (Char × List Str)) :
 theorem json_glue {V} (L : JsonLib V) (names : List Str) (r : List (Str × V)) (hr : r.map (·.1) = names) :
     jsonLoad L names (jsonSave L r) = some r ∧ '\n' ∉ jsonSave L r ∧ '\r' ∉ jsonSave L r := by
   first | exact WindVerif.Records.json_glue .. | (apply WindVerif.Records.json_glue <;> assumption)
+
+/-- a mutable record file that is edited, saved and reopened yields the same records: the `'\n'`-delimited lines of the saved
+file (C11's reference `refLines`), each parsed by the record class, are exactly the records stored (C12's `save_spec` gives
+the saved bytes, `savedLine` is one of its lines for a record stored through `__setitem__`/`insert`) -/
+theorem record_file_roundtrip (d : Char) (hd : IsDelim d) (rs : List (List Str)) (h : ∀ r ∈ rs, ∀ f ∈ r, Clean f) :
+    (WindVerif.LineFile.refLines ((rs.map (savedLine d)).flatten)).map (parseRow d) = rs.map Except.ok :=
+  WindVerif.Records.record_file_roundtrip d hd rs h
 
 /-- non-vacuity: delimiter, quote and a lone empty field -/
 example : writeRow ',' ["a,b".toList, "q\"".toList] = "\"a,b\",\"q\"\"\"\r\n".toList ∧ writeRow ',' [[]] = "\"\"\r\n".toList := by
